@@ -552,6 +552,56 @@ def case_coap_batch(p):
         return _coap_batch(loop, p)
 
 
+def case_ble_session(p):
+    """Several requests in a row on ONE encrypted (or plain) session - the keys, their counters and the accessory's reference session live on
+    across the requests: every request of the sequence has to be reassembled by the accessory and answered, whatever the requests before it
+    looked like (single fragment, many fragments, empty).  p: f, enc, lens (body length per request), resp_parts (fragments per response)."""
+    from aiohomekit import pdu as libpdu
+    from aiohomekit.controller.ble import client as libclient
+    from aiohomekit.controller.ble.key import DecryptionKey, EncryptionKey
+
+    f, enc, seed = p["f"], bool(p["enc"]), p.get("seed", 0)
+    c2a, a2c = det_bytes(seed, "c17s-c2a"), det_bytes(seed, "c17s-a2c")
+    session = blepdu.Session(c2a, a2c) if enc else None
+    ek = EncryptionKey(c2a) if enc else None
+    dk = DecryptionKey(a2c) if enc else None
+    N = f + blepdu.TAG if enc else f
+    out = []
+    saved = libclient.random
+    try:
+        for k, L in enumerate(p["lens"]):
+            body = _fill(L, seed + k)
+            tid = _rot(BLE_TIDS, k + L)
+            iid = _rot(BLE_IIDS, k)
+            opcode = _rot(BLE_OPCODES, k)
+
+            def responder(req, k=k):
+                echo = bytes(b ^ 0x5A for b in req.body)
+                return blepdu.response_fragments(req.tid, 0, echo, blepdu.uniform_parts(len(echo), max(1, f - (k % 3))))
+
+            gatt = _Gatt(N, session, responder)
+            libclient.random = _Rand(tid)
+            det = {**p, "request": k, "L": L}
+            try:
+                res = _drive(libclient.ble_request(gatt, ek, dk, libpdu.OpCode(opcode), _Handle(), iid, body))
+            except core.HarnessError:
+                raise
+            except Exception as e:  # noqa: BLE001
+                out += [(s_ + ":later-request-of-a-session", {**det, **d}) for s_, d in gatt.problems] or [(f"ble:honest-exchange-raises:{type(e).__name__}:later-request-of-a-session", {**det, "err": str(e)[:160]})]
+                break
+            r = gatt.request
+            if r is None or r.body != body or r.tid != tid or r.iid != iid or r.opcode != opcode:
+                out.append(("ble:request-reassembled-differs:later-request-of-a-session", det))
+                break
+            status, got = res
+            if _status_value(status) != 0 or bytes(got) != bytes(b ^ 0x5A for b in body):
+                out.append(("ble:response-body-differs:later-request-of-a-session", det))
+                break
+    finally:
+        libclient.random = saved
+    return out
+
+
 def case_ble_sched(p):
     """One execution of the gated BLE harness (c06_ble.BleH), judged by its 'c17:' clause only: a read that completes carries the value of the
     characteristic it asked for, whatever was cancelled, timed out, replayed or dropped before."""
@@ -583,6 +633,7 @@ def _work_sched(item, seed, tier):
 
 
 CASES = {
+    "ble_session": case_ble_session,
     "ble_sched": case_ble_sched,
     "ble_request": case_ble_request,
     "ble_response": case_ble_response,
@@ -593,6 +644,8 @@ CASES = {
 
 # ================================================================ work
 def _symbols(name, p):
+    if name == "ble_session":
+        return (name, "ble:enc" if p["enc"] else "ble:plain")
     if name == "ble_request":
         return (name, "ble:enc" if p["enc"] else "ble:plain", "ble:req:nobody" if p["L"] == 0 else ("ble:req:single" if p["L"] <= p["f"] - 7 else "ble:req:fragmented"))
     if name == "ble_response":
@@ -680,6 +733,18 @@ def run(ctx):
                     req.append({"f": f, "enc": enc, "L": L, "opcode": _rot(BLE_OPCODES, k), "tid": _rot(BLE_TIDS, k // 3), "iid": _rot(BLE_IIDS, k // 5), "seed": seed, "gatt": {"latency": lat, "wnr": wnr}})
     req.sort(key=lambda p: -(p["L"] // max(1, p["f"] - 2)))  # long ones first for load balance
     work += _chunks("ble_request", req, 250)
+    # sequences of requests on one session: every ordered choice of 2 (3) body lengths out of {0, one fragment, exactly full, one byte over, three
+    # fragments, long} for a few fragment budgets
+    import itertools as _it
+
+    sess = []
+    for f in (20, 23, 64) if quick else (8, 20, 23, 64, 155, 512):
+        pool = [0, 1, f - 7, f - 6, 3 * f, 700]
+        for n_ in (2, 3) if not quick else (2,):
+            for lens in _it.product(pool, repeat=n_):
+                for enc in (1, 0) if n_ == 2 else (1,):
+                    sess.append({"f": f, "enc": enc, "lens": list(lens) + [5], "seed": seed})
+    work += _chunks("ble_session", sess, 60)
     ctx.bounds["ble_request"] = dict(
         grid="fragment budgets 8..64 x body lengths 0..200 x {plain, encrypted}",
         realistic=f"budgets {REAL_SIZES} x " + ("boundary lengths (0,1,2, k-th fragment boundary -1/0/+1 for k<4, 255..257, 1000, 2048, 4999, 5000)" if quick else "every length 0..5000") + " x {plain, encrypted}",
@@ -796,7 +861,7 @@ def run(ctx):
     ctx.exhaustive = True
     a = ctx.acc
     for name in CASES:
-        if name != "ble_sched":
+        if name not in ("ble_sched",):
             ctx.require(a.symbols[name] > 0, f"case family {name} never ran")
     ctx.require(a.symbols["req3"] > 0 and a.symbols["cancel"] > 0, "BLE schedule leg never ran")
     for s in ("ble:enc", "ble:plain", "ble:req:nobody", "ble:req:single", "ble:req:fragmented", "ble:fault:tid-first", "ble:fault:tid-cont",
